@@ -166,7 +166,7 @@ func c03EngineTies(r *Report, known []Finding, root *RNG) {
 				attrs[tg] = "true"
 			}
 		}
-		if f := matchKnown(known, "C03", attrs); f != nil {
+		if f := matchKnown(known, r.Property, attrs); f != nil {
 			r.Known(f, map[string]string{"pattern": c.p, "haystack_hex": hexOf(c.h), "at": fmt.Sprint(c.at), "engine": c.got, "lean": ans[i]})
 			continue
 		}
